@@ -711,6 +711,14 @@ impl Interface {
 
         let mut result = PollResult::None;
         for item in sockets.items_mut() {
+            // While a datagram is being sent in fragments, the fragmentation buffer is
+            // busy: taking another datagram from a socket could overwrite the fragments
+            // that are still pending. The datagrams stay queued in their sockets.
+            #[cfg(feature = "_proto-fragmentation")]
+            if !self.fragmenter.is_empty() && !self.fragmenter.finished() {
+                break;
+            }
+
             if !item
                 .meta
                 .egress_permitted(self.inner.now, |ip_addr| self.inner.has_neighbor(&ip_addr))
@@ -1295,6 +1303,13 @@ impl InterfaceInner {
                                 "Fragmentation buffer is too small, at least {} needed. Dropping",
                                 total_ip_len
                             );
+                            return Ok(());
+                        }
+
+                        if !frag.is_empty() && !frag.finished() {
+                            // E.g. a reply to a received packet while an earlier datagram
+                            // is still being sent in fragments.
+                            net_debug!("Fragmentation buffer is busy. Dropping");
                             return Ok(());
                         }
 
